@@ -27,7 +27,8 @@ var substRE = regexp.MustCompile(`(?m)^//zz:subst\s+(\S+)\s+(\S+)`)
 // substModel maps a substituted import path to the model package directory
 // under /verif/harness and its import path inside the repo module.
 var substModel = map[string][2]string{
-	"os": {"zzos", "github.com/regclient/regclient/internal/zzos"},
+	"os":          {"zzos", "github.com/regclient/regclient/internal/zzos"},
+	"archive/tar": {"zztar", "github.com/regclient/regclient/internal/zztar"},
 }
 
 var pkgDirRE = regexp.MustCompile(`(?m)^//zz:pkg\s+(\S+)`)
@@ -137,9 +138,12 @@ func Overlay(repo, verif string, hs []Harness) (map[string][]byte, []string, err
 				if !strings.HasSuffix(f.Name(), ".go") || strings.HasSuffix(f.Name(), "_test.go") {
 					continue
 				}
-				src, err := os.ReadFile(filepath.Join(pdir, f.Name()))
-				if err != nil {
-					return nil, nil, err
+				src, ok := ov[filepath.Join(pdir, f.Name())]
+				if !ok {
+					src, err = os.ReadFile(filepath.Join(pdir, f.Name()))
+					if err != nil {
+						return nil, nil, err
+					}
 				}
 				out := single.ReplaceAll(src, []byte("import "+alias+" \""+model[1]+"\""))
 				out = inBlock.ReplaceAll(out, []byte("${1}"+alias+" \""+model[1]+"\""))
